@@ -645,7 +645,18 @@ func (m *mappedFile) lookup(name string) (v *atomic.Uint64, headOff, head uint32
 	headOff = m.hdrLen + hashOff + h*4
 	head = m.load32(headOff)
 	off := head
+	// A corrupt file may contain a cyclic chain. Detect it with Brent's
+	// algorithm: mark is an offset visited at most power steps ago.
+	var mark uint32
+	steps, power := 0, 1
 	for off != 0 {
+		if off == mark {
+			return nil, 0, 0, false
+		}
+		if steps == power {
+			mark, steps, power = off, 0, power*2
+		}
+		steps++
 		ename, next, v, ok := m.entryAt(off)
 		if !ok {
 			return nil, 0, 0, false
@@ -763,7 +774,16 @@ func (m *mappedFile) newCounter(name string) (v *atomic.Uint64, m1 *mappedFile, 
 		// Check new elements in chain for duplicates.
 		old := head
 		head = m.load32(headOff)
+		var mark uint32 // cycle detection as in lookup
+		steps, power := 0, 1
 		for off := head; off != old; {
+			if off == mark {
+				return nil, nil, errCorrupt
+			}
+			if steps == power {
+				mark, steps, power = off, 0, power*2
+			}
+			steps++
 			ename, enext, v, ok := m.entryAt(off)
 			if !ok {
 				return nil, nil, errCorrupt
